@@ -284,26 +284,43 @@ def r63_65(ctx, prog):
 
 
 def r64(ctx, prog):
-    f = prog.fn('token::parse_dec_or_hex')
-    if f is None:
-        ctx.unrecognised('R6.4', 'parse_dec_or_hex', 'missing', 'not found')
+    """the integer attempt on a word, read off the second tokenizer stage interpreted on a single word (wherever the code lives:
+    `parse_dec_or_hex`, a helper it was inlined into, or the big function itself): the only prefix test is `strip_prefix("0x")`;
+    with the prefix the remainder goes to EvalexprInt::from_hex_str, without it the whole word goes to FromStr of the integer type;
+    every path makes exactly one of the two attempts"""
+    from rules import toksem
+    ts = toksem.get(prog)
+    f = ts.f
+    w = SYM('w')
+    try:
+        ps = [p for p in ts.run((ts.P('Literal', 'w'),)) if p[0] != ('diverge',)]
+    except Budget:
+        ctx.unrecognised('R6.4', 'integer-attempt', 'budget', 'too complex', span=f.span)
         return
-    ps = Interp(prog, max_depth=1).paths(f, [SYM('literal')])
-    hexp = [p for p in ps if any('strip_prefix' in fmt(v) and t == C(1) for v, t in branches_of(p[1]))]
-    decp = [p for p in ps if any('strip_prefix' in fmt(v) and t != C(1) for v, t in branches_of(p[1]))]
-    prefix = {fmt(e[2][1]) for p in ps for e in p[1] if not e[0].startswith('<') and e[0].split('::')[-1] == 'strip_prefix'}
-    ctx.check(prefix == {"'0x'"}, 'R6.4', 'hex-prefix', 'prefix', 'the hexadecimal prefix is exactly "0x" (found %s)' % sorted(prefix), span=f.span)
-    strip = [(n, a) for p in ps for e in p[1] if not e[0].startswith('<') and e[0].split('::')[-1] == 'strip_prefix' for n, a in [(e[0], e[2])]]
-    rest = P_SOME(('app', strip[0][0], tuple(strip[0][1]))) if strip else None
-
-    def ok_payloads(paths):
-        return [r[4][0] for r in expand_results([p[0] for p in paths]) if is_adt(r, 'result::Result', 'Ok')]
-    hp = ok_payloads(hexp)
-    good = bool(hp) and all(any(n.endswith('from_hex_str') and a == (rest,) for n, a in apps(v)) for v in hp)
-    ctx.check(good, 'R6.4', 'hex-path', 'hex', 'with the prefix, the remainder is parsed by EvalexprInt::from_hex_str (%s)' % [fmt(p[0])[:120] for p in hexp], span=f.span)
-    dp = ok_payloads(decp)
-    good = bool(dp) and all(any('from_str::<' in n and 'Int' in n and a == (SYM('literal'),) for n, a in apps(v)) and not any(n.endswith('from_hex_str') for n, a in apps(v)) for v in dp)
-    ctx.check(good, 'R6.4', 'dec-path', 'dec', 'without the prefix, the whole word is parsed by FromStr of the integer type (%s)' % [fmt(p[0])[:120] for p in decp], span=f.span)
+    prefixes, bad = set(), []
+    n_hex = n_dec = 0
+    for ret, eff in ps:
+        # the name of the result term carries the type a generic std function was instantiated at (`from_str::<..::Int>`)
+        calls = [((e[4][1] if (len(e) > 4 and e[4] is not None and e[4][0] == 'app') else e[0]), e[2]) for e in eff if not e[0].startswith('<')]
+        strips = [(n, a) for n, a in calls if n.split('::')[-1].split('#')[0] == 'strip_prefix' and a and toksem._bare(a[0]) == w]
+        for n, a in strips:
+            prefixes.add(fmt(a[1]) if len(a) > 1 else '?')
+        hexpath = any(v[0] == 'app' and v[1] == 'discriminant' and v[2][0][0] == 'app' and v[2][0][1].split('::')[-1] == 'strip_prefix' and t == C(1) for v, t in branches_of(eff))
+        hexcalls = [a for n, a in calls if n.endswith('from_hex_str')]
+        deccalls = [a for n, a in calls if 'from_str::<' in n and 'Int' in n]
+        if hexpath:
+            n_hex += 1
+            rest = P_SOME(('app', strips[0][0], tuple(strips[0][1]))) if strips else None
+            hexcalls = [a for a in hexcalls if a]
+            if not (len(hexcalls) >= 1 and all(a == (rest,) for a in hexcalls) and not deccalls):
+                bad.append('with the prefix: from_hex_str%s, from_str%s' % ([fmt(a[0])[:50] for a in hexcalls], [fmt(a[0])[:30] for a in deccalls]))
+        else:
+            n_dec += 1
+            if not (len(deccalls) >= 1 and all(toksem._bare(a[0]) == w for a in deccalls) and not hexcalls):
+                bad.append('without the prefix: from_str%s, from_hex_str%s' % ([fmt(a[0])[:30] for a in deccalls], [fmt(a[0])[:50] for a in hexcalls]))
+    ctx.check(prefixes == {"'0x'"}, 'R6.4', 'hex-prefix', 'prefix', 'the hexadecimal prefix is exactly "0x" (found %s)' % sorted(prefixes), span=f.span)
+    ctx.check(n_hex >= 1 and not [b for b in bad if b.startswith('with the')], 'R6.4', 'hex-path', 'hex', 'with the prefix, the remainder is parsed by EvalexprInt::from_hex_str (%d paths; %s)' % (n_hex, bad[:2]), span=f.span)
+    ctx.check(n_dec >= 1 and not [b for b in bad if b.startswith('without')], 'R6.4', 'dec-path', 'dec', 'without the prefix, the whole word is parsed by FromStr of the integer type (%d paths; %s)' % (n_dec, bad[:2]), span=f.span)
     h = [x for x in prog.fns if x.name == 'from_hex_str' and x.j.get('impl_self_ty') == 'i64']
     if len(h) != 1:
         ctx.unrecognised('R6.4', '<i64 as EvalexprInt>::from_hex_str', 'missing', 'not found')
